@@ -88,14 +88,20 @@ def local_env(fn):
     for c in comp_bound:
         env.pop(c, None)
     # a local whose object is changed in place after its definition does not equal its defining expression
+    # (a local that merely names an existing object - an attribute, an element of a container - stays an alias of it)
+    def fresh(e):
+        return not isinstance(e, (ast.Name, ast.Attribute, ast.Subscript))
     for n in walk_no_nested(fn):
+        nm = None
         if isinstance(n, ast.Call) and isinstance(n.func, ast.Attribute) and isinstance(n.func.value, ast.Name) and \
                 n.func.attr in _MUTATING_METHODS:
-            env.pop(n.func.value.id, None)
+            nm = n.func.value.id
         elif isinstance(n, ast.Subscript) and isinstance(n.ctx, (ast.Store, ast.Del)) and isinstance(n.value, ast.Name):
-            env.pop(n.value.id, None)
+            nm = n.value.id
         elif isinstance(n, ast.Attribute) and isinstance(n.ctx, (ast.Store, ast.Del)) and isinstance(n.value, ast.Name):
-            env.pop(n.value.id, None)
+            nm = n.value.id
+        if nm is not None and nm in env and fresh(env[nm]):
+            env.pop(nm, None)
     return env
 
 
